@@ -3,6 +3,7 @@ package main
 import (
 	"fmt"
 	"strings"
+	"time"
 )
 
 func init() {
@@ -334,6 +335,62 @@ func checkC20(c *Ctx) {
 		}
 	}
 	cliStates := cliCheck(c, cli, "rejection")
+	// every small program with exactly one of the listed violations (StmtReject.tla over the macro-token
+	// family of StmtModel.tla): rejected, and on the line of the offending token
+	{
+		maxLen, structMax := 4, 6
+		if !c.Quick() {
+			maxLen, structMax = 5, 7
+		}
+		var nd NDJSON
+		desc := map[string]string{}
+		inBatch, nfam, nviol := 0, 0, 0
+		failed := false
+		flush := func() {
+			if inBatch == 0 || failed {
+				return
+			}
+			res, err := RunTLC("stmtreject", TLCJob{Module: "StmtReject", Cfg: "StmtReject.cfg", Data: map[string][]byte{"stmtall.ndjson": nd.Bytes()},
+				Workers: c.Workers, Timeout: 30 * time.Minute, HeapGB: 10})
+			if err != nil || !res.Clean() {
+				c.Fatal("StmtReject run failed: %v\n%s", err, tail(res.Output, 3000))
+				failed = true
+				return
+			}
+			for _, m := range reCaseFlag.FindAllStringSubmatch(res.Output, -1) {
+				nviol++
+				if nviol <= 10 {
+					c.Violate(Violation{What: "a small program with exactly one violation (" + strings.Join(strings.Fields(m[4]), " ") + ") is not rejected on the line of the offending token",
+						Source: desc[m[3]]})
+				}
+			}
+			cliStates += res.Distinct
+			nd = NDJSON{}
+			inBatch = 0
+		}
+		stmtFamily(c, maxLen, structMax, func(id string, toks []string, isErr bool, eline int) {
+			var texts []string
+			for _, t := range toks[:len(toks)-1] {
+				for _, m := range stmtMacros {
+					if m.tok == t {
+						texts = append(texts, m.text)
+					}
+				}
+			}
+			desc[id] = "script S {\n    " + strings.Join(texts, "\n    ") + "\n}\n"
+			nd.Add(map[string]interface{}{"id": id, "toks": toks, "err": isErr, "eline": eline})
+			nfam++
+			inBatch++
+			if inBatch >= 120000 {
+				flush()
+				for k := range desc {
+					delete(desc, k)
+				}
+			}
+		})
+		flush()
+		c.Cov("small_programs_with_one_violation_family", int64(nfam))
+	}
 	bad, states, ok := runPairCases(c, "Reject", "reject.ndjson", recs)
 	states += cliStates
 	if !ok {
